@@ -1,3 +1,4 @@
+import RedoModel.Props.C15c
 import RedoModel.Lemmas.Paths
 import RedoModel.Props.C15b
 
